@@ -47,6 +47,7 @@ type lockWant struct {
 	m    any
 	mode string
 	gid  uint64 // the goroutine that wants it
+	site string
 }
 
 type section struct {
@@ -547,7 +548,7 @@ func (s *Sim) LockHook(kind string, m any, mode string, site string) {
 		}
 		s.mu.Unlock()
 		if t != nil {
-			s.park(t, lockHeldPoint, lockWant{m: m, mode: mode, gid: gid})
+			s.park(t, lockHeldPoint, lockWant{m: m, mode: mode, gid: gid, site: site})
 		}
 	case "acq":
 		s.mu.Lock()
@@ -864,6 +865,11 @@ func (s *Sim) releaseLockWaiter() bool {
 		return false
 	}
 	s.unpark(pick)
+	// In the history this is a step of its own (the goroutine goes on, at a
+	// quiescent point, and takes the mutex now), marked with "!": oracles that
+	// need the instant of an acquisition must not take the yield in front of
+	// the call for it.
+	s.H.Add(Event{Kind: "step", Task: pick.name, Info: "lock@" + pick.arg.(lockWant).site + "!"})
 	pick.wake <- struct{}{}
 	return true
 }
